@@ -53,6 +53,8 @@ def run_box(ctx, cfgs, label):
 
 def ebox_result(ctx):
     def compute():
+        from . import design
+        free = design.run(ctx)
         cfgs = boxes.ebox(ctx.tier, ctx.seed)
         traces, verdicts = run_box(ctx, cfgs, "ebox")
         kinds = Counter()
@@ -62,7 +64,7 @@ def ebox_result(ctx):
                     if f(e):
                         kinds[k] += 1
         return {"traces": traces, "verdicts": verdicts, "runs": ctx.tlc_runs,
-                "kinds": dict(kinds)}
+                "kinds": dict(kinds), "design": free}
     res = fw.cached("ebox", ctx.tier, ctx.seed, compute)
     if not ctx.tlc_runs:
         ctx.tlc_runs = res["runs"]
@@ -115,6 +117,7 @@ def check(ctx):
         "constructor_rejections_in_box": sum(1 for t in traces if t.get("ctor")),
         "box": f"ebox tier={ctx.tier}: see harness/boxes.py:ebox",
         "samples": sample_traces(traces, 4),
+        "design_level_free_runs": res.get("design"),
         "exhaustive": ctx.tier == "quick",
         "rule": "every configuration of the box is one trace; every clause is evaluated at "
                 "every event of every trace by TLC (TraceExec.tla)",
